@@ -13,7 +13,7 @@ PROP = "C20"
 LEAN_MODULES = ["Props.C20"]
 RULE = (
     "case = (register type with 0-5 user-defined properties over mixed field kinds, names chosen to sort before / "
-    "between / after the framework's own property names; a subclass, a second subclass that adds a property of its own and overrides the first inherited one, and an unrelated type (in four cases out of ten the views of the other types are asked for first); a file with 0-10 "
+    "between / after the framework's own property names (in about a third of the cases a caller first edits IN PLACE the lists that custom_properties handed out earlier - remove / append / clear / reverse / sort / overwrite - for the type asked for or for every type: what the library hands out is the caller's to change and leaves nothing behind); a subclass, a second subclass that adds a property of its own and overrides the first inherited one, and an unrelated type (in four cases out of ten the views of the other types are asked for first); a file with 0-10 "
     "registers of the type interleaved with other types and free-text lines; None in any position). Observed on the "
     "real code: Register.custom_properties, list(df.columns), df.shape[0], every cell (null-aware, numbers as "
     "doubles), and - after overwriting every cell of the frame - whether the registers' data is unchanged. Judged by "
@@ -122,6 +122,16 @@ def run_impl(case):
                 if c is not None and i != case["type"]:
                     f._as_df(c)
                     c().custom_properties
+        if case.get("edit"):
+            # a caller was handed the list of user-defined properties earlier (from a fresh register of the type
+            # and from the registers in the file) and changed ITS list in place, e.g. to pick the columns of a
+            # report of its own: the answers observed below are the same as without that
+            who = [i for i, c in enumerate(classes) if c is not None and (case["edit"]["who"] == "all" or i == case["type"])]
+            for i in who:
+                edit_in_place(classes[i]().custom_properties, case["edit"]["how"])
+            for r in regs:
+                if any(type(r) is classes[i] for i in who):
+                    edit_in_place(r.custom_properties, case["edit"]["how"])
         before = [[codec.enc_val(v) for v in (r.data if isinstance(r.data, list) else [r.data])] for r in regs]
         probe = classes[case["type"]]() if case["type"] != 3 else None
         cp = [codec.enc_str(n) for n in (probe.custom_properties if probe is not None else [])]
@@ -157,6 +167,29 @@ def run_impl(case):
         return out
     except Exception as e:
         return codec.enc_exc(e)
+
+
+EDITS = ["remove_first", "remove_last", "append_new", "append_attr", "clear", "reverse", "sort_desc", "overwrite"]
+
+
+def edit_in_place(lst, how):
+    """the caller's edit of a list it was handed (the list is the caller's own)"""
+    if how == "remove_first" and lst:
+        lst.remove(lst[0])
+    elif how == "remove_last" and lst:
+        lst.pop()
+    elif how == "append_new":
+        lst.append("report_column")
+    elif how == "append_attr":
+        lst.append("data")
+    elif how == "clear":
+        lst.clear()
+    elif how == "reverse":
+        lst.reverse()
+    elif how == "sort_desc":
+        lst.sort(reverse=True)
+    elif how == "overwrite":
+        lst[:] = ["x_" + n for n in lst] + ["is_first"]
 
 
 def view_vs_registers(f, t):
@@ -237,6 +270,8 @@ def features(case, obs):
         f.append("free_text_interleaved")
     if any(c == 2 for c, _ in case["regs"]):
         f.append("other_type_interleaved")
+    if case.get("edit"):
+        f.append(f"returned_list_edited={case['edit']['how']}/{case['edit']['who']}")
     if isinstance(obs, dict) and "nrows" in obs:
         f.append("empty_view" if obs["nrows"] == 0 else "non_empty_view")
     return f
@@ -293,7 +328,10 @@ def random_case(rng):
         for r in regs:
             if r[0] != 3:
                 r[1] = [None] * len(r[1])
-    return {"props": props, "regs": regs, "type": t, "route": rng.choice(["append", "append", "insertions"]), "warm": rng.random() < 0.4}
+    case = {"props": props, "regs": regs, "type": t, "route": rng.choice(["append", "append", "insertions"]), "warm": rng.random() < 0.4}
+    if rng.random() < 0.35:
+        case["edit"] = {"how": rng.choice(EDITS), "who": rng.choice(["type", "type", "all"])}
+    return case
 
 
 def corpus_cases():
@@ -331,3 +369,9 @@ def shrinks(case):
     p = case["props"]
     for i in range(len(p)):
         yield {**case, "props": p[:i] + p[i + 1 :]}
+    if case.get("warm"):
+        yield {**case, "warm": False}
+    if case.get("edit"):
+        yield {k: v for k, v in case.items() if k != "edit"}
+        if case["edit"]["who"] == "all":
+            yield {**case, "edit": {**case["edit"], "who": "type"}}
